@@ -7,6 +7,10 @@ import RbV.Model.QGramMatches
 import RbV.Model.QGramIndex
 import RbV.Model.QGramExact
 import RbV.Model.LcskFwd
+import RbV.Model.Lcskpp
+import RbV.Model.Sdpkpp
+import RbV.Model.KmerHash
+import RbV.Model.Expand
 /-! Driver for property C19 (line protocol → verdict).
 
 ```
@@ -17,7 +21,7 @@ c19 idx    <alpha hex> <q> <max_count|max> <text hex> <query;query;…>
            res    positions | ps:pe:ts:te:count,… | ps:pe:ts:te,… | P!<panic class>
 c19 kmer   <k> <x hex> <y hex> <match_score> <gap_open> <gap_extend>
                                                                => m=<pairs> h1=<pairs> h2=<pairs> score=<n> path=<idx> sdp=<idx> uni=<idx>
-c19 lcs    <k> <x:y,x:y,…>                                     => score=<n> path=<idx>
+c19 lcs    <k> <x:y,x:y,…>                                     => score=<n> path=<idx> dp=<scores> dpf=<score:ptr+1,…>
 c19 sdp    <k> <match_score> <gap_open> <gap_extend> <x:y,…>   => sdp=<idx> uni=<idx>
 c19 expand <k> <allowed_mismatches> <x hex> <y hex> <x:y,…>    => exp=<pairs> score=<n> path=<idx>
 ```
@@ -234,6 +238,10 @@ def lcsCheck (ms : List M) (k : Nat) (out : String) : Option String × List Stri
       match optOf ms k with
       | none => (some "bad-op oracle-dp-vs-enum", [])
       | some opt =>
+        let mdl : Option Model.Lcskpp.Res := match Model.Lcskpp.lcskpp ms k with | .ok r => some r | .error _ => none
+        -- proved: on a strictly sorted list the model answers, with the optimum (a failure is a driver/model defect)
+        if (match mdl with | some r => r.score ≠ opt || !validChain ms k r.path || score k (pathMatches ms r.path) ≠ opt | none => true)
+          then (some "bad-op lcskpp-model-vs-oracle", []) else
         let cs := score k (pathMatches ms path)
         if cs ≠ opt then (some s!"reject lcskpp-chain-not-optimal chain-score={cs} optimum={opt}", [])
         else if sc ≠ opt then (some s!"diff score {opt}", [])
@@ -243,6 +251,16 @@ def lcsCheck (ms : List M) (k : Nat) (out : String) : Option String × List Stri
               (match (outField out "dp").bind parseNatList with
                | some dp => if dp = dpScores ms k then ["dp-cells-agree"] else ["drift-dp-cells"]
                | none => ["dp-not-reported"]) ++
+              -- the mirror model of the whole routine (event sort, Fenwick sweep, traceback), proved optimal
+              -- (Thm.C19.lcskpp_model_optimal); which optimal chain / which dp cells is not fixed by the property ⇒ drift tags
+              (match mdl with
+               | some r =>
+                 (if r.path = path && r.score = sc then ["model-path-score-agree"] else
+                    (if r.path ≠ path then ["drift-model-path"] else []) ++ (if r.score ≠ sc then ["drift-model-score"] else [])) ++
+                 (match (outField out "dpf").bind parsePairs with
+                  | some dpf => if dpf = r.dp.map (fun c => (c.1, (c.2 + 1).toNat)) then ["model-dp-vector-agrees"] else ["drift-model-dp-vector"]
+                  | none => ["dpf-not-reported"])
+               | none => []) ++
               (if (pathMatches ms path).zip ((pathMatches ms path).drop 1) |>.any (fun (a, b) => cont a b && !nonov k a b) then ["has-cont"] else []) ++
               (if (pathMatches ms path).zip ((pathMatches ms path).drop 1) |>.any (fun (a, b) => nonov k a b) then ["has-jump"] else []) ++
               (if ms.length ≤ 12 then ["enum-checked"] else []))
@@ -260,7 +278,7 @@ def verdictLcs (ks mss out : String) : String :=
     | (none, tags) => "ok" ++ (if ms.length ≥ 2 && tags.contains "chain>=2" then " nt" else "") ++ " lcs" ++ String.join (tags.map (" " ++ ·))
   | _, _ => "bad-op lcs-parse"
 
-def sdpCheck (ms : List M) (k : Nat) (out : String) : Option String × List String :=
+def sdpCheck (ms : List M) (k : Nat) (par : Option (Nat × Nat × Nat)) (out : String) : Option String × List String :=
   match (outField out "sdp").bind parseNatList, (outField out "uni").bind parseNatList with
   | some p1, some p2 =>
     match chainVerdict "sdpkpp" ms k p1 with
@@ -268,23 +286,51 @@ def sdpCheck (ms : List M) (k : Nat) (out : String) : Option String × List Stri
     | none =>
       match chainVerdict "union" ms k p2 with
       | some r => (some ("reject " ++ r), [])
-      | none => (none, (if p1.length ≥ 2 then ["sdp-chain>=2"] else []) ++ (if p2 ≠ p1 then ["union-differs"] else []))
+      | none =>
+        -- mirror models of sdpkpp / the union (Thm.C19.sdpkpp_model_valid): proved to answer with a valid chain on every
+        -- strictly sorted list; which chain / which score the implementation returns is not fixed by the property ⇒ drift tags
+        let mdlTags : Option (List String) := match par with
+          | none => some []
+          | some (msc, go, ge) =>
+            match Model.Sdpkpp.sdpkpp ms k msc go ge, Model.Sdpkpp.unionPath ms k msc go ge with
+            | .ok r, .ok u =>
+              if !validChain ms k r.path || (!ms.isEmpty && r.path.isEmpty) then none else
+              some ((if r.path = p1 then ["sdp-model-path-agrees"] else ["drift-sdp-model-path"]) ++
+                (if u = p2 then ["union-model-agrees"] else ["drift-union-model"]) ++
+                (match (outField out "sdpscore").bind parseNat with
+                 | some sc => if sc = r.score then [] else ["drift-sdp-model-score"]
+                 | none => []) ++
+                (match (outField out "sdpf").bind parsePairs with
+                 | some dpf => if dpf = r.dp.map (fun c => (c.1, (c.2 + 1).toNat)) then ["sdp-model-dp-vector-agrees"] else ["drift-sdp-model-dp-vector"]
+                 | none => []))
+            | _, _ => none
+        match mdlTags with
+        | none => (some "bad-op sdpkpp-model", [])
+        | some mt => (none, (if p1.length ≥ 2 then ["sdp-chain>=2"] else []) ++ (if p2 ≠ p1 then ["union-differs"] else []) ++ mt)
   | _, _ => (some "bad-op sdp-output", [])
 
-def verdictSdp (ks mss out : String) : String :=
+def parsePar (a b c : String) : Option (Nat × Nat × Nat) :=
+  match parseNat a, parseNat b, parseNat c with
+  | some x, some y, some z => some (x, y, z)
+  | _, _, _ => none
+
+def verdictSdp (ks a b c mss out : String) : String :=
   match parseNat ks, parsePairs mss with
   | some k, some ms =>
     if k = 0 || !strictLex ms then "bad-op sdp-domain" else
-    match sdpCheck ms k out with
+    match sdpCheck ms k (parsePar a b c) out with
     | (some v, _) => panicOr out v
     | (none, tags) => "ok" ++ (if tags.contains "sdp-chain>=2" then " nt" else "") ++ " sdp" ++ String.join (tags.map (" " ++ ·))
   | _, _ => "bad-op sdp-parse"
 
-def verdictKmer (ks xh yh out : String) : String :=
+def verdictKmer (ks xh yh a b c out : String) : String :=
   match parseNat ks, parseHex xh, parseHex yh with
   | some k, some x, some y =>
     if k = 0 then "bad-op kmer-domain" else
     let exp := kmerMatches x y k
+    -- mirror models of the hash-map based matchers, proved equal to the reference (Thm.C19.find_kmer_matches_model_refines)
+    if Model.KmerHash.findKmerMatches x y k ≠ exp || Model.KmerHash.seq1Hashed (Model.KmerHash.hashKmers x k) y k ≠ exp
+        || Model.KmerHash.seq2Hashed x (Model.KmerHash.hashKmers y k) k ≠ exp then "bad-op kmer-model-vs-reference" else
     match (outField out "m").bind parsePairs, (outField out "h1").bind parsePairs, (outField out "h2").bind parsePairs with
     | some m, some h1, some h2 =>
       if m ≠ exp then "diff m " ++ showPairs exp else
@@ -293,7 +339,7 @@ def verdictKmer (ks xh yh out : String) : String :=
       match lcsCheck exp k out with
       | (some v, _) => v
       | (none, t1) =>
-        match sdpCheck exp k out with
+        match sdpCheck exp k (parsePar a b c) out with
         | (some v, _) => v
         | (none, t2) =>
           "ok" ++ (if exp.length ≥ 2 then " nt" else "") ++ " kmer" ++ (if exp.isEmpty then " no-match" else "")
@@ -315,9 +361,14 @@ def verdictExpand (ks mms xh yh mss out : String) : String :=
       if !strictLex ex then "reject expand-not-strictly-sorted" else
       let exact := ms.all fun m => window k x m.1 == window k y m.2
       let inRange := ex.all fun m => m.1 + k ≤ x.length && m.2 + k ≤ y.length
+      -- mirror model of the expansion (Thm.C19.expand_model_sorted: strictly sorted, keeps the seeds); which positions the
+      -- implementation adds is not fixed by the property ⇒ drift tag
+      let mdl := Model.Expand.expandKmerMatches x y k ms mm
+      if (match mdl with | .ok r => !strictLex r || !(ms.all (r.contains ·)) | .error _ => true) then "bad-op expand-model" else
       match lcsCheck ex k out with
       | (some v, _) => v
       | (none, t1) => "ok" ++ (if ex.length > ms.length then " nt grew" else "") ++ " expand" ++ (if mm = 0 then " mm0" else "")
+          ++ (match mdl with | .ok r => if r = ex then " expand-model-agrees" else " drift-expand-model" | .error _ => "")
           ++ (if exact then " exact-seeds" else "")
           ++ (if !(ms.all (ex.contains ·)) then " drift-lost-a-seed" else "")
           ++ (if !inRange then " drift-out-of-range" else "")
@@ -330,9 +381,9 @@ def verdict (toks : List String) (out : String) : String :=
   match toks with
   | ["codes", a, q, t, xs] => verdictCodes a q t xs out
   | ["idx", a, q, mc, t, qs] => verdictIdx a q mc t qs out
-  | ["kmer", k, x, y, _, _, _] => verdictKmer k x y out
+  | ["kmer", k, x, y, a, b, c] => verdictKmer k x y a b c out
   | ["lcs", k, ms] => verdictLcs k ms out
-  | ["sdp", k, _, _, _, ms] => verdictSdp k ms out
+  | ["sdp", k, a, b, c, ms] => verdictSdp k a b c ms out
   | ["expand", k, mm, x, y, ms] => verdictExpand k mm x y ms out
   | _ => "bad-op arity"
 
